@@ -70,7 +70,11 @@ class TaskState:
 
 
 class World:
-    def __init__(self, id_seed=0):
+    def __init__(self, id_seed=0, unique_ids=False):
+        # unique_ids=True: ids come from a stub that never repeats one (used where thousands of ids are drawn in one
+        # run: the library's documented 6-character birthday bound is not under test). Default: the library's REAL
+        # nanoid code runs, fed by a seeded os.urandom stand-in.
+        self.unique_ids = unique_ids
         self.events = []
         self.probes = Counter()
         self.fault_counts = Counter()
@@ -107,6 +111,9 @@ class World:
                 self.ids_issued += 1
                 return s
 
+    def urandom(self, n):
+        return bytes(self.id_rng.getrandbits(8) for _ in range(n))
+
     def fault_point(self, site):
         ts = self.task()
         ts.fp_count += 1
@@ -142,7 +149,21 @@ def _generate(alphabet, size):
     w = CURRENT
     if w is None:
         raise RuntimeError("id requested outside a simulated run")
-    return w.gen_id(alphabet, size)
+    if w.unique_ids:
+        return w.gen_id(alphabet, size)
+    import django_components.util.nanoid as nano
+
+    s = nano.generate(alphabet, size)  # the library's own generator (looked up at call time), on seeded entropy
+    w.used_ids.add(s)
+    w.ids_issued += 1
+    return s
+
+
+def _urandom(n):
+    w = CURRENT
+    if w is None:
+        raise RuntimeError("entropy requested outside a simulated run")
+    return w.urandom(n)
 
 
 def install(world):
@@ -152,7 +173,10 @@ def install(world):
     import django.core.cache.backends.locmem as locmem
     import django_components.util.misc as misc
 
+    import django_components.util.nanoid as nano
+
     misc.generate = _generate
+    nano.urandom = _urandom
     locmem.time = _Time()
 
 
